@@ -20,6 +20,7 @@ import (
 	"rare/pkg/expressions"
 	"rare/pkg/expressions/funcfile"
 	"rare/pkg/expressions/funclib"
+	"rare/pkg/expressions/stdlib"
 	vrt "rare/verifrt"
 	"verif/mc"
 	"verif/runner"
@@ -114,6 +115,7 @@ func compile(p *program, optimize bool) (*expressions.CompiledKeyBuilder, error)
 // alone evaluates the program for one match on its own (fresh compile,
 // unoptimised: the sequential reference the statement refers to).
 func alone(p *program, m *match) string {
+	stdlib.VerifResetPools()
 	c, err := compile(p, false)
 	if err != nil {
 		panic(err)
@@ -129,6 +131,7 @@ const evalsPerGoroutine = 2
 
 func run(ex vrt.Chooser, c *Case, trace bool) (*obs, *vrt.Result) {
 	o := &obs{results: make([][]string, len(c.Gs))}
+	stdlib.VerifResetPools()
 	res := vrt.Run(ex, vrt.Options{Race: true, Trace: trace}, func() {
 		compiled, err := compile(&c.Program, c.Optimize)
 		if err != nil {
@@ -216,6 +219,7 @@ func worker(w *runner.W) {
 		if p.Prop != w.Prop {
 			continue
 		}
+		w.SetCase(func() any { return Case{Program: p} })
 		want := make([]string, len(matches))
 		for i, m := range matches {
 			want[i] = alone(&p, m)
@@ -231,6 +235,7 @@ func worker(w *runner.W) {
 				if len(gs) > 2 {
 					b = 2
 				}
+				w.SetCase(func() any { return *c })
 				units := mc.Units(b, func(e *mc.Explorer) {
 					run(e, c, false)
 					e.EndExecution()
